@@ -37,6 +37,16 @@ func newGuardArena() (*guardArena, error) {
 	return &guardArena{mem: mem, page: pg}, nil
 }
 
+// readOnly makes the accessible page read-only (true) or read-write again (false): while it is
+// read-only any store into it - even one that is undone straight afterwards - is a fault.
+func (g *guardArena) readOnly(ro bool) error {
+	prot := syscall.PROT_READ | syscall.PROT_WRITE
+	if ro {
+		prot = syscall.PROT_READ
+	}
+	return syscall.Mprotect(g.mem[g.page:2*g.page], prot)
+}
+
 // at returns an Element at the end (true) or the start (false) of the accessible page.
 func (g *guardArena) at(end bool) *field.Element {
 	off := g.page
